@@ -36,6 +36,7 @@ func (c *FnCtx) loopInvEnv(frame *Frame, l *Loop, st *State) *SpecEnv {
 		}
 	}
 	env.old = old
+	env.entryHeap = st.loopEntry[frame.id*1000+l.Ord]
 	return env
 }
 
@@ -52,6 +53,15 @@ func (c *FnCtx) loopEnter(frame *Frame, l *Loop, from *ssa.BasicBlock, st *State
 				}
 			}
 		}
+	}
+	// snapshot for entry(...): the heap when this loop is entered
+	{
+		ne := make(map[int]map[string]string, len(st.loopEntry)+1)
+		for k, v := range st.loopEntry {
+			ne[k] = v
+		}
+		ne[frame.id*1000+l.Ord] = copyHeap(st.heap)
+		st.loopEntry = ne
 	}
 	// establish
 	env := c.loopInvEnv(frame, l, st)
